@@ -133,6 +133,15 @@ LEAF_FACTS = {
 }
 
 
+# protocol facts (when does the function fail) of closed-form functions, proved of the real bodies by their K1
+# contracts (C03); expressed over the parameter names of the prototypes in xraylib.h
+OK_FACTS = {
+    "DCS_Thoms": "ok", "DCSP_Thoms": "ok",
+    "DCS_KN": "ok == (E > 0.0)", "DCSP_KN": "ok == (E > 0.0)", "MomentTransf": "ok == (E > 0.0)",
+    "CS_KN": "ok == (E > 0.0)", "ComptonEnergy": "ok == (E0 > 0.0)",
+}
+
+
 def leaf_fact(name):
     return LEAF_FACTS.get(name, POSITIVE)
 
@@ -183,9 +192,13 @@ def gen_stubs(sc, protos, names, tag, facts_override=None, with_setter=True):
             out.append("double %s(%s%sxrl_error **error) {" % (name, sig, ", " if sig else ""))
             out.append("  _Bool ok = __CPROVER_uninterpreted_ok_%s(%s);" % (name, args))
             out.append("  double v = __CPROVER_uninterpreted_v_%s(%s);" % (name, args))
-            out.append("  __CPROVER_assume(!ok || (%s));" % fact)
+            # the value is returned on both outcomes (a failing call returns the 0 sentinel): no if-then-else is
+            # wrapped around the UF leaf, so arithmetic over leaves stays syntactically identical in code and spec
+            out.append("  __CPROVER_assume(ok ? (%s) : (v == 0.0));" % fact)
+            if name in OK_FACTS:
+                out.append("  __CPROVER_assume(%s);" % OK_FACTS[name])
             out.append("  V_STUB_RESTRICT(v);")
-            out.append("  if (!ok) { stub_fail(error); return 0.0; }")
+            out.append("  if (!ok) stub_fail(error);")
             out.append("  return v;")
             out.append("}")
         else:
@@ -196,7 +209,8 @@ def gen_stubs(sc, protos, names, tag, facts_override=None, with_setter=True):
             out.append("  V_STUB_RESTRICT(v);")
             out.append("  return v;")
             out.append("}")
-        used.append("%s: assumed when ok: %s" % (name, fact if haserr else "v >= 0 finite"))
+        used.append("%s: assumed when ok: %s%s" % (name, fact if haserr else "v >= 0 finite",
+                                                 ("; protocol: " + OK_FACTS[name]) if name in OK_FACTS else ""))
     if with_setter:
         out.append("void xrl_set_error_literal(xrl_error **err, xrl_error_code code, const char *message) {")
         out.append("  __CPROVER_assert(message != NULL && message[0] != 0, \"error message is non-empty\");")
